@@ -89,32 +89,13 @@ CHECKS['C07'] = dict(
     technique="differential exploration against the Lean decoder models (proof of forward/backward compatibility pending)",
     ref="DESIGN.md §4 C07")
 CHECKS['C08'] = dict(
-    category='exploration',
-    text="Mutated (bit flips, truncation, insertion, splicing, length/tag tampering, TLV-structural edits) and random inputs up to 4 KiB are decoded by 7 codecs under a time and address-space limit with a sentinel valid decode after each; "
-         "for the five modelled codecs the outcome class is compared with the total Lean model decoders. Lean theorems on fuel sufficiency / allocation bounds are being proved (not yet registered).",
-    note="Exploration + model correspondence; CPython wall-clock and memory are observed, not modelled. Known finding C08-oer-quantity-unbounded.",
-    technique="resource-limited mutation exploration against total Lean model decoders (termination/allocation theorems pending)",
+    text="Lean theorems for the total decoder models: allocation bounds (decoded value size <= K(type) x input length) for ALL byte strings and types for DER, BER and UPER; fuel sufficiency "
+         "(raising the fuel of every data-driven loop above input length + 2 never changes the result: the loops stop because of the data) for DER, BER, UPER; and the recorded OER defect as theorems "
+         "(a quantity field of n yields n elements from O(log n) octets; no linear allocation bound exists). Mutated and random inputs up to 4 KiB are decoded by 7 real codecs under time / address-space limits with a sentinel "
+         "decode after each, and the outcome class is compared with the Lean models.",
+    note=NOTE_COMMON + "Partial: CPython wall-clock time and resident memory are observed under limits, not modelled; PER-aligned and OER bounds are not proved (OER has none: known finding); jer/xer are exercised directly.",
+    technique="Lean 4 proof (allocation bound + fuel sufficiency of total decoder models) + resource-limited mutation differential check",
     ref="DESIGN.md §4 C08")
-CHECKS['C05'] = dict(
-    text="Lean theorems uper_refines / per_refines (the code models Uper and Per equal the specification encoder X691 written from X.691 clauses 10-27, for all types/values with an empty deviation list, both variants), "
-         "spec_total, declarative primitive lemmas (minimal field widths, minimal octets, length determinant forms), Annex A.1/A.4 examples kernel-evaluated; implementation bytes vs S and M on every generated case and S's octets fed to the real decoder.",
-    note=NOTE_COMMON + "S is an agent-written reading of X.691; 13 named deviation kinds (each with a kernel-checked witness) are reported as findings.",
-    technique="Lean 4 proof (M = S refinement, aligned and unaligned) + bit-exact differential check",
-    ref="DESIGN.md §4 C05")
-CHECKS['C13'] = dict(
-    category='exploration',
-    text="Random histories (compile_dict over 8 codecs x numeric_enums, eval(pformat), deepcopy; up to 6 steps) on the parsed dictionary of generated modules (references, value references, defaults, IMPORTS split, EXTENSIBILITY IMPLIED); "
-         "after every compile the codec object is compared behaviourally with a fresh compile_string. No Lean model of the in-place pre-processing passes yet.",
-    note="Exploration only (the dictionary rewriting passes are not modelled in Lean yet); pprint/eval trusted.",
-    technique="history-differential exploration (Lean model of the pre-processing passes pending)",
-    ref="DESIGN.md §4 C13")
-CHECKS['C19'] = dict(
-    category='exploration',
-    text="One generated AST is rendered in meaning-preserving arrangements (inline; shared type references, value references, permuted assignments; two modules with IMPORTS in both orders; constraints on references) and compiled for 8 codecs: "
-         "encodings, errors and decoded values must coincide with the inline arrangement, which C01 ties to the Lean models. No Lean model of reference resolution yet.",
-    note="Exploration only; XER text legitimately names list elements after referenced types, so for XER only decoded values are compared.",
-    technique="metamorphic exploration across arrangements (Lean elaboration model pending)",
-    ref="DESIGN.md §4 C19")
 NOT_APPLICABLE = []
 
 def main():
